@@ -202,5 +202,118 @@ def _c20():
         lines.append("Definition hash_parse_backward_%s : bool := %s." % (ty, "true" if re.search(r"slice\.reverse\(\);", b) else "false"))
     lines.append("")
 
+    # ---------------------------------------------------------------- serde: field-name lists of the hand-written impls
+    lines.append("(* C20: serde field names — serde_struct_impl! / serde_struct_human_string_impl! invocations; ExtData and Params impls *)")
+    s = strip_comments(src("internal_macros.rs"))
+    for mac, nser, nde in (("serde_struct_impl", 1, 1), ("serde_struct_human_string_impl", 1, 1)):
+        b = body_after(s, r"macro_rules!\s+%s\s*\{" % mac, "macro %s" % mac)
+        if b is None:
+            continue
+        if len(re.findall(r"st\.serialize_field\(stringify!\(\$fe\),\s*&self\.\$fe\)\?;", b)) != nser:
+            errors.append("%s no longer serializes each field under stringify!($fe)" % mac)
+        if len(re.findall(r"stringify!\(\$fe\)\s*=>\s*Ok\(Enum::\$fe\)", b)) != nde:
+            errors.append("%s no longer matches field keys against stringify!($fe)" % mac)
+        if len(re.findall(r"Some\(Enum::\$fe\)\s*=>\s*\{\s*\$fe\s*=\s*Some\(map\.next_value\(\)\?\);", b)) != nde:
+            errors.append("%s no longer stores each recognised field with `$fe = Some(map.next_value()?)`" % mac)
+        if len(re.findall(r"return\s+Err\(A::Error::missing_field\(stringify!\(\$fe\)\)\);", b)) != nde:
+            errors.append("%s no longer reports missing fields" % mac)
+        if "serializer.serialize_struct(stringify!($name), FIELDS.len())" not in b:
+            errors.append("%s no longer calls serialize_struct(stringify!($name), FIELDS.len())" % mac)
+    seen = {}
+    for rel in ("transaction.rs", "block.rs"):
+        for m in re.finditer(r"^(serde_struct_impl|serde_struct_human_string_impl)!\(\s*([A-Za-z0-9]+)\s*,\s*(?:\"[^\"]*\"\s*,\s*)?([a-z0-9_,\s]+)\);", strip_comments(src(rel)), flags=re.M):
+            seen[m.group(2)] = (m.group(1), [x.strip() for x in m.group(3).split(",") if x.strip()])
+    for name in ("AssetIssuance", "OutPoint", "TxInWitness", "TxIn", "TxOutWitness", "TxOut", "Transaction", "BlockHeader", "Block"):
+        if name not in seen:
+            errors.append("serde struct macro invocation for %s not found" % name)
+            continue
+        mac, fields = seen[name]
+        want = "serde_struct_human_string_impl" if name == "OutPoint" else "serde_struct_impl"
+        if mac != want:
+            errors.append("%s is now implemented by %s (the model transcribes %s)" % (name, mac, want))
+        lines.append("Definition serde_fields_%s : list (list byte) := [%s]." % (name, "; ".join(blist(f) for f in fields)))
+
+    def ser_fields(body, what):
+        """[(count, [field names])] for every `serialize_struct(NAME, n)` block followed by serialize_field calls"""
+        out = []
+        for m in re.finditer(r"serialize_struct\(\s*(?:\"[A-Za-z]+\"|name)\s*,\s*(\d+)\s*\)\?;(.*?)st\.end\(\)", body, flags=re.S):
+            names = re.findall(r"serialize_field\(\s*\"([a-z_]+)\"", m.group(2))
+            if len(names) != int(m.group(1)):
+                errors.append("%s: serialize_struct announces %s fields but writes %d" % (what, m.group(1), len(names)))
+            out.append(names)
+        return out
+
+    def de_keys(body, what):
+        b2 = body_after(body, r"fn\s+visit_str<E:\s*de::Error>\(self,\s*v:\s*&str\)\s*->\s*Result<Self::Value,\s*E>\s*\{\s*match\s+v\s*\{", what + " EnumVisitor::visit_str")
+        keys = re.findall(r"\"([a-z_]+)\"\s*=>\s*Ok\(Enum::([A-Za-z]+)\)", b2 or "")
+        if not keys or (b2 is not None and not re.search(r"_\s*=>\s*Ok\(Enum::Unknown\)", b2)):
+            errors.append("%s: field-key table not found" % what)
+        return keys
+
+    s = strip_comments(src("block.rs"))
+    b = body_after(s, r"impl\s+Serialize\s+for\s+ExtData\s*\{", "impl Serialize for ExtData")
+    sf = ser_fields(b or "", "Serialize for ExtData")
+    if len(sf) != 2:
+        errors.append("Serialize for ExtData no longer has two serialize_struct arms")
+    else:
+        lines.append("Definition extdata_ser_proof : list (list byte) := [%s]." % "; ".join(blist(f) for f in sf[0]))
+        lines.append("Definition extdata_ser_dynafed : list (list byte) := [%s]." % "; ".join(blist(f) for f in sf[1]))
+    b = body_after(s, r"impl<'de>\s+Deserialize<'de>\s+for\s+ExtData\s*\{", "impl Deserialize for ExtData")
+    keys = de_keys(b or "", "Deserialize for ExtData")
+    lines.append("Definition extdata_de_keys : list (list byte * list byte) := [%s]." % "; ".join("(%s, %s)" % (blist(k), blist(v)) for k, v in keys))
+    if b is not None:
+        for var, slot in (("Challenge", "challenge"), ("Solution", "solution"), ("Current", "current"), ("Proposed", "proposed"), ("Witness", "witness")):
+            if not re.search(r"Some\(Enum::%s\)\s*=>\s*%s\s*=\s*Some\(map\.next_value\(\)\?\)" % (var, slot), b):
+                errors.append("Deserialize for ExtData: Enum::%s no longer fills `%s`" % (var, slot))
+        if not re.search(r"if\s+let\s+\(Some\(chal\),\s*Some\(soln\)\)\s*=\s*\(challenge,\s*solution\)", b) or \
+           not re.search(r"else\s+if\s+let\s+\(Some\(cur\),\s*Some\(prop\),\s*Some\(wit\)\)\s*=\s*\(current,\s*proposed,\s*witness\)", b):
+            errors.append("Deserialize for ExtData: variant selection (Proof first, then Dynafed) changed")
+
+    s = strip_comments(src("dynafed.rs"))
+    b = body_after(s, r"impl\s+Serialize\s+for\s+Params\s*\{", "impl Serialize for Params")
+    sf = ser_fields(b or "", "Serialize for Params")
+    if len(sf) != 2 or sf[0] != []:
+        errors.append("Serialize for Params no longer has an empty struct for Null and a 3-field struct for Compact")
+    else:
+        lines.append("Definition params_ser_compact : list (list byte) := [%s]." % "; ".join(blist(f) for f in sf[1]))
+    if b is not None and 'Params::Full(ref full) => full.serde_serialize(s, "Params")' not in b:
+        errors.append("Serialize for Params::Full no longer delegates to FullParams::serde_serialize")
+    b = body_after(s, r"fn\s+serde_serialize<S:\s*Serializer>\(&self,\s*s:\s*S,\s*name:\s*&'static\s+str\)\s*->\s*Result<S::Ok,\s*S::Error>\s*\{", "FullParams::serde_serialize")
+    sf = ser_fields(b or "", "FullParams::serde_serialize")
+    if len(sf) != 1:
+        errors.append("FullParams::serde_serialize shape changed")
+    else:
+        lines.append("Definition params_ser_full : list (list byte) := [%s]." % "; ".join(blist(f) for f in sf[0]))
+        if b is not None and (not re.search(r"\"fedpegscript\",\s*&HexBytes\(&self\.fedpegscript\)", b) or not re.search(r"\"extension_space\",\s*&HexBytesArray\(&self\.extension_space\)", b)):
+            errors.append("FullParams::serde_serialize no longer wraps fedpegscript / extension_space in HexBytes / HexBytesArray")
+    b = body_after(s, r"impl<'de>\s+Deserialize<'de>\s+for\s+Params\s*\{", "impl Deserialize for Params")
+    keys = de_keys(b or "", "Deserialize for Params")
+    lines.append("Definition params_de_keys : list (list byte * list byte) := [%s]." % "; ".join("(%s, %s)" % (blist(k), blist(v)) for k, v in keys))
+    if b is not None:
+        for var, slot in (("SignblockScript", "signblockscript"), ("SignblockWitnessLimit", "signblock_witness_limit"), ("ElidedRoot", "elided_root"),
+                          ("FedpegProgram", "fedpeg_program"), ("FedpegScript", "fedpegscript"), ("ExtSpace", "extension_space")):
+            if not re.search(r"Some\(Enum::%s\)\s*=>\s*\{\s*%s\s*=\s*Some\(map\.next_value\(\)\?\);" % (var, slot), b):
+                errors.append("Deserialize for Params: Enum::%s no longer fills `%s`" % (var, slot))
+        if not re.search(r"_\s*=>\s*Ok\(Params::Null\)", b):
+            errors.append("Deserialize for Params: the fall-through to Params::Null changed")
+    # confidential Value / Asset / Nonce: the tags and the byte swap
+    s = strip_comments(src("confidential.rs"))
+    for ty in ("Value", "Asset", "Nonce"):
+        bs = body_after(s, r"impl\s+Serialize\s+for\s+%s\s*\{" % ty, "impl Serialize for %s" % ty)
+        bd = body_after(s, r"impl<'de>\s+Deserialize<'de>\s+for\s+%s\s*\{" % ty, "impl Deserialize for %s" % ty)
+        if bs is None or bd is None:
+            continue
+        st = re.findall(r"%s::(Null|Explicit|Confidential)(?:\([a-z_]*\))?\s*=>\s*(?:\{\s*)?seq\.serialize_element\(&(\d+)u8\)\?" % ty, bs)
+        dt = re.findall(r"Some\((\d+)\)\s*=>\s*(?:\{\s*match\s+access\.next_element\(\)\?\s*\{\s*Some\(x\)\s*=>\s*)?Ok\(%s::(Null|Explicit|Confidential)" % ty, bd)
+        if len(st) != 3 or len(dt) != 3:
+            errors.append("serde of confidential::%s: tag tables not found (ser %s, de %s)" % (ty, st, dt))
+            continue
+        lines.append("Definition conf_ser_tags_%s : list (list byte * N) := [%s]." % (ty, "; ".join("(%s, %s)" % (blist(n), t) for n, t in st)))
+        lines.append("Definition conf_de_tags_%s : list (N * list byte) := [%s]." % (ty, "; ".join("(%s, %s)" % (t, blist(n)) for t, n in dt)))
+        if ty == "Value":
+            lines.append("Definition value_ser_swaps : bool := %s." % ("true" if re.search(r"seq\.serialize_element\(&u64::swap_bytes\(n\)\)\?", bs) else "false"))
+            lines.append("Definition value_de_swaps : bool := %s." % ("true" if re.search(r"Ok\(Value::Explicit\(u64::swap_bytes\(x\)\)\)", bd) else "false"))
+    lines.append("")
+
 
 _c20()
